@@ -33,6 +33,12 @@ CHECKS = {
          "Every applicable opener/END deletion, duplication, surplus END, END-name change and single parenthesis edit "
          "of generated programs must be rejected.", TRUST + " Each edit kind is argued to leave an invalid program.",
          "DESIGN.md 5 C08"),
+ "C10": ("property-based invariant checking over generated trees (identity-level structural invariants, walk() vs independent traversal)",
+         "For generated trees (and their re-parse) uniqueness of node objects, parent links, get_root, walk() coverage/order "
+         "and statement order vs printed text are checked on every node.", TRUST, "DESIGN.md 5 C10"),
+ "C18": ("property-based round-trip (deepcopy / pickle) with structural, textual, identity and aliasing oracles",
+         "Generated trees including comment, directive, include and cpp nodes are deep-copied and pickled; copies must "
+         "print and compare equal, be well formed, share no node and be independent under mutation.", TRUST, "DESIGN.md 5 C18"),
  "C01": ("property-based round-trip (Hypothesis-driven program generator; parse/print/parse fixpoint oracle)",
          "Random programs from a structured Fortran generator are parsed, printed, re-parsed and re-printed; "
          "trees and texts must agree. Exploration is the right level: the domain is an infinite grammar.",
@@ -40,6 +46,6 @@ CHECKS = {
 }
 NOT_APPLICABLE = {
  pid: "check not built yet (work in progress; see DESIGN.md 5)" for pid in
- [ "C09", "C10", "C11", "C13", "C14", "C15", "C16", "C17",
-  "C18", "C19", "C20"]
+ [ "C09", "C11", "C13", "C14", "C15", "C16", "C17",
+  "C19", "C20"]
 }
